@@ -171,7 +171,7 @@ _CURVES = {
     "nistp521": (
         ec.SECP521R1,
         hashes.SHA512,
-        0x01FFFFFFFFFFFFFFFFFFFFFFFFFFFFFFFFFFFFFFFFFFFFFFFFFFFFFFFFFFFFFFFFFFFFFFFFFFFFFFFFFFFFFFFFFFFFFFFFFFFA51868783BF2F966B7FCC0148F709A5D03BB5C9B8899C47AEBB6FB71E91386409,
+        (1 << 521) - 657877501894328237357444332315020117536923257219387276263472201219398408051703,
     ),
 }
 _CURVE_BY_CLASS = {"secp256r1": "nistp256", "secp384r1": "nistp384", "secp521r1": "nistp521"}
